@@ -121,3 +121,9 @@ package header
 //@   modifies ghost:storeAppends
 //@   ensures storeAppends == old(storeAppends) + 1
 //@   ensures asNonAdj(result) == nil -- the sync package's private error type cannot come out of a store
+
+// ---- Getter.GetRangeByHeight as documented in interface.go (contract-abiding getter, C03/C07)
+//@ iface Getter.GetRangeByHeight(g, ctx, from, to)
+//@   requires [C07] non-degenerate: from.Height() + 1 < to
+//@   ensures result1 == nil ==> len(result0) >= 1 && len(result0) <= to - from.Height() - 1
+//@   ensures result1 == nil ==> forall i int :: 0 <= i && i < len(result0) ==> result0[i].Height() == from.Height() + 1 + i && (verified(from) ==> verified(result0[i]))
